@@ -474,7 +474,11 @@ static bool dirname_in_use(const char *dirname)
 	return false;
 }
 
-static void recv_trace_dir_name(int sock, int len)
+/*
+ * The recv_trace_*() functions return -1 when the connection ends in the
+ * middle of the message: that client is gone, the others are served on.
+ */
+static int recv_trace_dir_name(int sock, int len)
 {
 	char dirname[len + 1];
 	struct client_data *client;
@@ -482,7 +486,7 @@ static void recv_trace_dir_name(int sock, int len)
 	int i;
 
 	if (read_all(sock, dirname, len) < 0)
-		pr_err("recv header failed");
+		return -1;
 	dirname[len] = '\0';
 
 	client = xmalloc(sizeof(*client));
@@ -505,21 +509,22 @@ static void recv_trace_dir_name(int sock, int len)
 	pr_dbg3("create directory: %s\n", client->dirname);
 
 	list_add(&client->list, &client_list);
+	return 0;
 }
 
-static void recv_trace_data(int sock, int len)
+static int recv_trace_data(int sock, int len)
 {
 	struct client_data *client;
 	int32_t tid;
 	char *filename = NULL;
-	void *buffer;
+	void *buffer = NULL;
 
 	client = find_client(sock);
 	if (client == NULL)
 		pr_err_ns("no client on this socket\n");
 
 	if (read_all(sock, &tid, sizeof(tid)) < 0)
-		pr_err("recv tid failed");
+		goto lost;
 	tid = ntohl(tid);
 
 	xasprintf(&filename, "%d.dat", tid);
@@ -528,27 +533,33 @@ static void recv_trace_data(int sock, int len)
 	buffer = xmalloc(len);
 
 	if (read_all(sock, buffer, len) < 0)
-		pr_err("recv buffer failed");
+		goto lost;
 
 	write_client_file(client, filename, 1, buffer, len);
 
 	free(buffer);
 	free(filename);
+	return 0;
+
+lost:
+	free(buffer);
+	free(filename);
+	return -1;
 }
 
-static void recv_trace_kernel_data(int sock, int len)
+static int recv_trace_kernel_data(int sock, int len)
 {
 	struct client_data *client;
 	int32_t cpu;
 	char *filename = NULL;
-	void *buffer;
+	void *buffer = NULL;
 
 	client = find_client(sock);
 	if (client == NULL)
 		pr_err_ns("no client on this socket\n");
 
 	if (read_all(sock, &cpu, sizeof(cpu)) < 0)
-		pr_err("recv cpu failed");
+		goto lost;
 	cpu = ntohl(cpu);
 
 	xasprintf(&filename, "kernel-cpu%d.dat", cpu);
@@ -557,27 +568,33 @@ static void recv_trace_kernel_data(int sock, int len)
 	buffer = xmalloc(len);
 
 	if (read_all(sock, buffer, len) < 0)
-		pr_err("recv buffer failed");
+		goto lost;
 
 	write_client_file(client, filename, 1, buffer, len);
 
 	free(buffer);
 	free(filename);
+	return 0;
+
+lost:
+	free(buffer);
+	free(filename);
+	return -1;
 }
 
-static void recv_trace_perf_data(int sock, int len)
+static int recv_trace_perf_data(int sock, int len)
 {
 	struct client_data *client;
 	int32_t cpu;
 	char *filename = NULL;
-	void *buffer;
+	void *buffer = NULL;
 
 	client = find_client(sock);
 	if (client == NULL)
 		pr_err_ns("no client on this socket\n");
 
 	if (read_all(sock, &cpu, sizeof(cpu)) < 0)
-		pr_err("recv cpu failed");
+		goto lost;
 	cpu = ntohl(cpu);
 
 	xasprintf(&filename, "perf-cpu%d.dat", cpu);
@@ -586,27 +603,33 @@ static void recv_trace_perf_data(int sock, int len)
 	buffer = xmalloc(len);
 
 	if (read_all(sock, buffer, len) < 0)
-		pr_err("recv buffer failed");
+		goto lost;
 
 	write_client_file(client, filename, 1, buffer, len);
 
 	free(buffer);
 	free(filename);
+	return 0;
+
+lost:
+	free(buffer);
+	free(filename);
+	return -1;
 }
 
-static void recv_trace_metadata(int sock, int len)
+static int recv_trace_metadata(int sock, int len)
 {
 	struct client_data *client;
 	int32_t namelen;
 	char *filename = NULL;
-	void *filedata;
+	void *filedata = NULL;
 
 	client = find_client(sock);
 	if (client == NULL)
 		pr_err_ns("no client on this socket\n");
 
 	if (read_all(sock, &namelen, sizeof(namelen)) < 0)
-		pr_err("recv symfile name length failed");
+		goto lost;
 
 	namelen = ntohl(namelen);
 	if (namelen > len)
@@ -615,7 +638,7 @@ static void recv_trace_metadata(int sock, int len)
 	filename = xmalloc(namelen + 1);
 
 	if (read_all(sock, filename, namelen) < 0)
-		pr_err("recv file name failed");
+		goto lost;
 	filename[namelen] = '\0';
 
 	len -= sizeof(namelen) + namelen;
@@ -623,26 +646,32 @@ static void recv_trace_metadata(int sock, int len)
 
 	pr_dbg2("reading %s (%d bytes)\n", filename, len);
 	if (read_all(sock, filedata, len) < 0)
-		pr_err("recv symfile failed");
+		goto lost;
 
 	write_client_file(client, filename, 1, filedata, len);
 
 	free(filedata);
 	free(filename);
+	return 0;
+
+lost:
+	free(filedata);
+	free(filename);
+	return -1;
 }
 
-static void recv_trace_info(int sock, int len)
+static int recv_trace_info(int sock, int len)
 {
 	struct client_data *client;
 	struct uftrace_file_header hdr;
-	void *info;
+	void *info = NULL;
 
 	client = find_client(sock);
 	if (client == NULL)
 		pr_err_ns("no client on this socket\n");
 
 	if (read_all(sock, &hdr, sizeof(hdr)) < 0)
-		pr_err("recv file header failed");
+		return -1;
 
 	hdr.version = ntohl(hdr.version);
 	hdr.header_size = ntohs(hdr.header_size);
@@ -654,11 +683,16 @@ static void recv_trace_info(int sock, int len)
 	info = xmalloc(len);
 
 	if (read_all(sock, info, len) < 0)
-		pr_err("recv info failed");
+		goto lost;
 
 	write_client_file(client, "info", 2, &hdr, sizeof(hdr), info, len);
 
 	free(info);
+	return 0;
+
+lost:
+	free(info);
+	return -1;
 }
 
 static void recv_trace_end(int sock, int efd)
@@ -733,6 +767,7 @@ static void handle_client_sock(struct epoll_event *ev, int efd, struct uftrace_o
 {
 	int sock = ev->data.fd;
 	struct uftrace_msg msg;
+	int ret = 0;
 
 	if (ev->events & (EPOLLERR | EPOLLHUP)) {
 		pr_dbg("client socket closed\n");
@@ -740,8 +775,12 @@ static void handle_client_sock(struct epoll_event *ev, int efd, struct uftrace_o
 		return;
 	}
 
-	if (read_all(sock, &msg, sizeof(msg)) < 0)
-		pr_err("message recv failed");
+	if (read_all(sock, &msg, sizeof(msg)) < 0) {
+		/* gone without SEND_END (killed, network down): only this client is lost */
+		pr_warn("client connection lost: closing it\n");
+		recv_trace_end(sock, efd);
+		return;
+	}
 
 	msg.magic = ntohs(msg.magic);
 	msg.type = ntohs(msg.type);
@@ -753,27 +792,27 @@ static void handle_client_sock(struct epoll_event *ev, int efd, struct uftrace_o
 	switch (msg.type) {
 	case UFTRACE_MSG_SEND_DIR_NAME:
 		pr_dbg2("receive UFTRACE_MSG_SEND_DIR_NAME\n");
-		recv_trace_dir_name(sock, msg.len);
+		ret = recv_trace_dir_name(sock, msg.len);
 		break;
 	case UFTRACE_MSG_SEND_DATA:
 		pr_dbg2("receive UFTRACE_MSG_SEND_DATA\n");
-		recv_trace_data(sock, msg.len);
+		ret = recv_trace_data(sock, msg.len);
 		break;
 	case UFTRACE_MSG_SEND_KERNEL_DATA:
 		pr_dbg2("receive UFTRACE_MSG_SEND_KERNEL_DATA\n");
-		recv_trace_kernel_data(sock, msg.len);
+		ret = recv_trace_kernel_data(sock, msg.len);
 		break;
 	case UFTRACE_MSG_SEND_PERF_DATA:
 		pr_dbg2("receive UFTRACE_MSG_SEND_PERF_DATA\n");
-		recv_trace_perf_data(sock, msg.len);
+		ret = recv_trace_perf_data(sock, msg.len);
 		break;
 	case UFTRACE_MSG_SEND_INFO:
 		pr_dbg2("receive UFTRACE_MSG_SEND_INFO\n");
-		recv_trace_info(sock, msg.len);
+		ret = recv_trace_info(sock, msg.len);
 		break;
 	case UFTRACE_MSG_SEND_META_DATA:
 		pr_dbg2("receive UFTRACE_MSG_SEND_META_DATA\n");
-		recv_trace_metadata(sock, msg.len);
+		ret = recv_trace_metadata(sock, msg.len);
 		break;
 	case UFTRACE_MSG_SEND_END:
 		pr_dbg2("receive UFTRACE_MSG_SEND_END\n");
@@ -783,6 +822,11 @@ static void handle_client_sock(struct epoll_event *ev, int efd, struct uftrace_o
 	default:
 		pr_dbg("unknown message: %d\n", msg.type);
 		break;
+	}
+
+	if (ret < 0) {
+		pr_warn("client connection lost in the middle of a message: closing it\n");
+		recv_trace_end(sock, efd);
 	}
 }
 
